@@ -124,6 +124,7 @@ fn generate(rng: &mut Rng) -> C14Sc {
             }
         }
         spec.close_on_end_ns = None;
+        spec.coalesce = rng.chance(1, 2);
         clients.push(NetClient { connect_at_ns: ms(rng.range(0, 3000)), peer, spec, wplan: vec![] });
         roles.push(role);
     }
